@@ -5,6 +5,7 @@ import (
 	"bytes"
 	"context"
 	"fmt"
+	"html"
 	"io"
 	"io/fs"
 	"regexp"
@@ -19,7 +20,6 @@ import (
 	"github.com/yuin/goldmark/parser"
 	ghtml "github.com/yuin/goldmark/renderer/html"
 	"github.com/yuin/goldmark/text"
-	"github.com/yuin/goldmark/util"
 
 	yaml "gopkg.in/yaml.v3"
 )
@@ -418,10 +418,14 @@ func writeText(w io.Writer, segment []byte, raw bool) error {
 }
 
 // plainText resolves backslash escapes and character references of a literal text segment.
+// Every escape or reference is resolved exactly once, in one pass: an ampersand that was itself
+// written as an escape or a reference (`\&copy;`, `&#38;lt;`) does not start another reference.
 func plainText(segment []byte) []byte {
-	segment = util.UnescapePunctuations(segment)
-	segment = util.ResolveNumericReferences(segment)
-	return util.ResolveEntityNames(segment)
+	var buf bytes.Buffer
+	bw := bufio.NewWriter(&buf)
+	ghtml.DefaultWriter.Write(bw, segment)
+	_ = bw.Flush()
+	return []byte(html.UnescapeString(buf.String()))
 }
 
 // inlineText extracts plain text from an inline node tree (used for alt text, heading IDs).
